@@ -141,6 +141,38 @@ catalogue! {
     model = |x| x.is_finite() && *x < -3.4028233e38f32;
     class = |s| class_num_str(s, None, Some(-3.4028233e38f32 as f64));
 
+    // ---- sanitizers without validators (arbitrary goes through `new`): the value must be a fixed
+    //      point of the declared sanitizer, for every family
+    #[nutype(sanitize(with = |x: u8| x & !1), derive(Debug, Arbitrary))]
+    struct U8EvenFree(u8);
+    family = "integer";
+    model = |x| *x % 2 == 0;
+    class = |_s| "inside";
+
+    #[nutype(sanitize(with = |x: i128| x.saturating_abs()), derive(Debug, Arbitrary))]
+    struct I128AbsFree(i128);
+    family = "integer";
+    model = |x| *x >= 0;
+    class = |_s| "inside";
+
+    #[nutype(sanitize(with = |x: f32| x.abs()), derive(Debug, Arbitrary))]
+    struct F32AbsFree(f32);
+    family = "float";
+    model = |x| x.is_nan() || x.is_sign_positive();
+    class = |_s| "inside";
+
+    #[nutype(sanitize(with = |s: String| s.replace(' ', "_")), derive(Debug, Arbitrary))]
+    struct StrSnakeFree(String);
+    family = "string";
+    model = |s| !s.contains(' ');
+    class = |_s| "inside";
+
+    #[nutype(sanitize(with = |o: Option<u8>| o.map(|x| x.min(9))), derive(Debug, Arbitrary))]
+    struct OptCapFree(Option<u8>);
+    family = "any";
+    model = |o| o.map_or(true, |x| x <= 9);
+    class = |_s| "inside";
+
     // ---- `finite` with an infinite constant as a bound
     #[nutype(validate(finite, greater_or_equal = f64::NEG_INFINITY, less_or_equal = 0.0), derive(Debug, Arbitrary))]
     struct F64FinGeNegInfLe(f64);
